@@ -249,3 +249,17 @@ func (c *Ctx) RequireMapWriters(rule, typ, field string, allowed map[string]stri
 type typesStruct = types.Struct
 
 func sortStrings(s []string) { sort.Strings(s) }
+
+// methodNames: sorted method names of an interface type.
+func methodNames(t types.Type) []string {
+	it, ok := t.Underlying().(*types.Interface)
+	if !ok {
+		return nil
+	}
+	var out []string
+	for i := 0; i < it.NumMethods(); i++ {
+		out = append(out, it.Method(i).Name())
+	}
+	sort.Strings(out)
+	return out
+}
